@@ -297,6 +297,30 @@ def run(ctx):
                                   mechanism="rho_changes_on_second_process_after_callback_reordered_list",
                                   monitor="StateTomography.process repeated")
             fid = st.fidelity(rho_exp)
+            # "that matrix" as a user obtains it: the library's own density_from_state, vector given as list or array
+            ctx.count("density_from_state_postconditions")
+            vec_form = str(rng.choice(["list", "ndarray", "column"]))
+            vec = {"list": [complex(x) for x in psi], "ndarray": np.array(psi), "column": np.array(psi)}[vec_form]
+            rho_lib = np.asarray(lw.tomography.density_from_state(vec))
+            if rho_lib.shape != rho_exp.shape or float(np.max(np.abs(rho_lib - rho_exp))) > 1e-12:
+                ctx.violation(f"density_from_state({vec_form}) is not the outer product |psi><psi| of the vector it was given",
+                              case=case, mechanism="density_from_state_value", monitor="density_from_state post-condition")
+            elif data_kind == "exact" and abs(st.fidelity(rho_lib) - 1) > 1e-6:
+                ctx.violation(f"fidelity against density_from_state(psi) is {st.fidelity(rho_lib):.9f}", case=case,
+                              mechanism="rho_fidelity:density_from_state", monitor="StateTomography.process post-condition")
+            # a fidelity worth the name is 0 against a state orthogonal to the prepared one (whatever its convention
+            # for intermediate values - F or sqrt(F) - which the property does not fix)
+            if data_kind == "exact":
+                phi = rng.normal(size=len(psi)) + 1j * rng.normal(size=len(psi))
+                phi = phi - psi * np.vdot(psi, phi)
+                if np.linalg.norm(phi) > 1e-6:
+                    phi = phi / np.linalg.norm(phi)
+                    ctx.count("fidelity_against_orthogonal_state")
+                    f0 = st.fidelity(np.outer(phi, phi.conj()))
+                    if not abs(f0) <= 1e-3:
+                        ctx.violation(f"fidelity against a state orthogonal to the prepared one is {f0:.6f}", case=case,
+                                      mechanism="fidelity_orthogonal_state_not_zero",
+                                      monitor="StateTomography.fidelity post-condition")
         except Exception as e:  # noqa: BLE001
             ctx.violation(f"StateTomography raised {type(e).__name__}: {e}", case=case,
                           mechanism="state_tomography_raised:" + type(e).__name__ + ":" + direct, monitor="driver")
